@@ -16,7 +16,7 @@ use poulpy_core::{
 };
 use poulpy_hal::{
     api::{ScratchOwnedBorrow},
-    layouts::{Module, NoiseInfos, ScalarZnx, ToOwnedDeep, VecZnx, WriterTo, ZnxViewMut},
+    layouts::{Module, NoiseInfos, ScalarZnx, Scratch, ToOwnedDeep, VecZnx, WriterTo, ZnxViewMut},
     source::Source,
 };
 use pzv_be::FullBackend;
@@ -140,16 +140,71 @@ fn own(v: &VecZnx<&[u8]>) -> VecZnx<Vec<u8>> {
     v.to_owned_deep()
 }
 
+thread_local! {
+    /// C12 mode: `Some((exact, fill seed))` makes every encryption routine run on a guarded window of exactly
+    /// its own `*_tmp_bytes` query (or a roomy one) filled with garbage; `None` = the 4 MiB dirty scratch.
+    pub static SCRATCH_MODE: std::cell::Cell<Option<(bool, u64)>> = const { std::cell::Cell::new(None) };
+    pub static GUARD_BAD: std::cell::Cell<bool> = const { std::cell::Cell::new(false) };
+    pub static LAST_ROUTINE: std::cell::Cell<(&'static str, usize)> = const { std::cell::Cell::new(("", 0)) };
+}
+
+pub struct Scr<B: FullBackend> {
+    big: Option<poulpy_hal::layouts::ScratchOwned<B>>,
+    win: Option<crate::c12s::Win>,
+}
+
+impl<B: FullBackend> Scr<B>
+where
+    Scratch<B>: poulpy_hal::api::ScratchFromBytes<B>,
+{
+    pub fn new() -> Self {
+        Scr { big: None, win: None }
+    }
+    pub fn get(&mut self, routine: &'static str, bytes: usize) -> &mut Scratch<B> {
+        LAST_ROUTINE.with(|l| l.set((routine, bytes)));
+        match SCRATCH_MODE.with(|m| m.get()) {
+            None => {
+                if self.big.is_none() {
+                    self.big = Some(pzv_be::dirty_scratch::<B>(1 << 22));
+                }
+                self.big.as_mut().unwrap().borrow()
+            }
+            Some((exact, seed)) => {
+                if let Some(w) = &self.win
+                    && !w.guards_ok()
+                {
+                    GUARD_BAD.with(|g| g.set(true));
+                }
+                self.win = Some(if exact { crate::c12s::Win::new(bytes, seed) } else { crate::c12s::Win::roomy(15 * bytes + (8 << 20), seed) });
+                self.win.as_mut().unwrap().scratch::<B>()
+            }
+        }
+    }
+}
+
+impl<B: FullBackend> Drop for Scr<B> {
+    fn drop(&mut self) {
+        if let Some(w) = &self.win
+            && !w.guards_ok()
+        {
+            GUARD_BAD.with(|g| g.set(true));
+        }
+    }
+}
+
 /// Encrypts an object of kind `p.kind`; `compressed` selects the seed-compressed routine followed
 /// by decompression (optionally after a serialisation round trip of the compressed object).
-pub fn build<B: FullBackend>(m: &Module<B>, p: &EncP, compressed: bool, via_serde: bool) -> Obj {
+pub fn build<B: FullBackend>(m: &Module<B>, p: &EncP, compressed: bool, via_serde: bool) -> Obj
+where
+    Scratch<B>: poulpy_hal::api::ScratchFromBytes<B>,
+{
     let n = m.n();
     let (b, k) = (p.base2k as usize, p.k());
     let (nd, bb, kk) = (Degree(n as u32), Base2K(b as u32), TorusPrecision(k as u32));
     let (ri, ro) = (Rank(p.rank_in as u32), Rank(p.rank_out as u32));
     let (dnum, dsize) = (Dnum(p.dnum as u32), Dsize(p.dsize as u32));
     let ni = p.noise_infos();
-    let mut scratch = pzv_be::dirty_scratch::<B>(1 << 22);
+    let mut scratch = Scr::<B>::new();
     let mut xe = Source::new(seed32(p.seed_xe, 0xE));
     let mut xa = Source::new(seed32(p.seed_xa, 0xA));
     let seed_xa = seed32(p.seed_xa, 0xA);
@@ -179,7 +234,8 @@ pub fn build<B: FullBackend>(m: &Module<B>, p: &EncP, compressed: bool, via_serd
             let mut ct = GLWE::alloc_from_infos(&lay);
             if compressed {
                 let mut c = GLWECompressed::alloc_from_infos(&lay);
-                m.glwe_compressed_encrypt_sk(&mut c, &pt, &skp, seed_xa, &enc, &mut xe, scratch.borrow());
+                let q = m.glwe_compressed_encrypt_sk_tmp_bytes(&lay);
+                m.glwe_compressed_encrypt_sk(&mut c, &pt, &skp, seed_xa, &enc, &mut xe, scratch.get("glwe_compressed_encrypt_sk", q));
                 c.write_to(&mut bytes).unwrap();
                 if via_serde {
                     use poulpy_hal::layouts::ReaderFrom;
@@ -190,7 +246,8 @@ pub fn build<B: FullBackend>(m: &Module<B>, p: &EncP, compressed: bool, via_serd
                 seeds.push(*c.seed());
                 m.decompress_glwe(&mut ct, &c);
             } else {
-                m.glwe_encrypt_sk(&mut ct, &pt, &skp, &enc, &mut xe, &mut xa, scratch.borrow());
+                let q = m.glwe_encrypt_sk_tmp_bytes(&lay);
+                m.glwe_encrypt_sk(&mut ct, &pt, &skp, &enc, &mut xe, &mut xa, scratch.get("glwe_encrypt_sk", q));
             }
             cells.push(ct.data().to_owned_deep());
         }
@@ -204,7 +261,8 @@ pub fn build<B: FullBackend>(m: &Module<B>, p: &EncP, compressed: bool, via_serd
             let mut ct = GGLWE::alloc_from_infos(&lay);
             if compressed {
                 let mut c = GGLWECompressed::alloc_from_infos(&lay);
-                m.gglwe_compressed_encrypt_sk(&mut c, &pt, &skp, seed_xa, &enc, &mut xe, scratch.borrow());
+                let q = m.gglwe_compressed_encrypt_sk_tmp_bytes(&lay);
+                m.gglwe_compressed_encrypt_sk(&mut c, &pt, &skp, seed_xa, &enc, &mut xe, scratch.get("gglwe_compressed_encrypt_sk", q));
                 c.write_to(&mut bytes).unwrap();
                 if via_serde {
                     use poulpy_hal::layouts::ReaderFrom;
@@ -225,7 +283,8 @@ pub fn build<B: FullBackend>(m: &Module<B>, p: &EncP, compressed: bool, via_serd
                 m.decompress_gglwe(&mut part, &c);
                 partial = Some((rows_r, (0..rows_r).flat_map(|row| (0..p.rank_in as usize).map(move |col| (row, col))).map(|(row, col)| own(part.at(row, col).data())).collect()));
             } else {
-                m.gglwe_encrypt_sk(&mut ct, &pt, &skp, &enc, &mut xe, &mut xa, scratch.borrow());
+                let q = m.gglwe_encrypt_sk_tmp_bytes(&lay);
+                m.gglwe_encrypt_sk(&mut ct, &pt, &skp, &enc, &mut xe, &mut xa, scratch.get("gglwe_encrypt_sk", q));
             }
             for row in 0..p.dnum as usize {
                 for col in 0..p.rank_in as usize {
@@ -242,7 +301,8 @@ pub fn build<B: FullBackend>(m: &Module<B>, p: &EncP, compressed: bool, via_serd
             let cols = p.rank_out as usize + 1;
             if compressed {
                 let mut c = GGSWCompressed::alloc_from_infos(&lay);
-                m.ggsw_compressed_encrypt_sk(&mut c, &pt, &skp, seed_xa, &enc, &mut xe, scratch.borrow());
+                let q = m.ggsw_compressed_encrypt_sk_tmp_bytes(&lay);
+                m.ggsw_compressed_encrypt_sk(&mut c, &pt, &skp, seed_xa, &enc, &mut xe, scratch.get("ggsw_compressed_encrypt_sk", q));
                 c.write_to(&mut bytes).unwrap();
                 if via_serde {
                     use poulpy_hal::layouts::ReaderFrom;
@@ -258,7 +318,8 @@ pub fn build<B: FullBackend>(m: &Module<B>, p: &EncP, compressed: bool, via_serd
                 }
                 m.decompress_ggsw(&mut ct, &c);
             } else {
-                m.ggsw_encrypt_sk(&mut ct, &pt, &skp, &enc, &mut xe, &mut xa, scratch.borrow());
+                let q = m.ggsw_encrypt_sk_tmp_bytes(&lay);
+                m.ggsw_encrypt_sk(&mut ct, &pt, &skp, &enc, &mut xe, &mut xa, scratch.get("ggsw_encrypt_sk", q));
             }
             for row in 0..p.dnum as usize {
                 for col in 0..cols {
@@ -272,7 +333,8 @@ pub fn build<B: FullBackend>(m: &Module<B>, p: &EncP, compressed: bool, via_serd
             let mut ct = GLWESwitchingKey::alloc_from_infos(&lay);
             if compressed {
                 let mut c = GLWESwitchingKeyCompressed::alloc_from_infos(&lay);
-                m.glwe_switching_key_compressed_encrypt_sk(&mut c, &sk_in, &sk_out, seed_xa, &enc, &mut xe, scratch.borrow());
+                let q = m.glwe_switching_key_compressed_encrypt_sk_tmp_bytes(&lay);
+                m.glwe_switching_key_compressed_encrypt_sk(&mut c, &sk_in, &sk_out, seed_xa, &enc, &mut xe, scratch.get("glwe_switching_key_compressed_encrypt_sk", q));
                 c.write_to(&mut bytes).unwrap();
                 if via_serde {
                     use poulpy_hal::layouts::ReaderFrom;
@@ -293,7 +355,8 @@ pub fn build<B: FullBackend>(m: &Module<B>, p: &EncP, compressed: bool, via_serd
                 m.decompress_glwe_switching_key(&mut part, &c);
                 partial = Some((rows_r, (0..rows_r).flat_map(|row| (0..p.rank_in as usize).map(move |col| (row, col))).map(|(row, col)| own(part.at(row, col).data())).collect()));
             } else {
-                m.glwe_switching_key_encrypt_sk(&mut ct, &sk_in, &sk_out, &enc, &mut xe, &mut xa, scratch.borrow());
+                let q = m.glwe_switching_key_encrypt_sk_tmp_bytes(&lay);
+                m.glwe_switching_key_encrypt_sk(&mut ct, &sk_in, &sk_out, &enc, &mut xe, &mut xa, scratch.get("glwe_switching_key_encrypt_sk", q));
             }
             for row in 0..p.dnum as usize {
                 for col in 0..p.rank_in as usize {
@@ -309,7 +372,8 @@ pub fn build<B: FullBackend>(m: &Module<B>, p: &EncP, compressed: bool, via_serd
             let gal = (p.gal % (2 * n as i64)) | 1;
             if compressed {
                 let mut c = GLWEAutomorphismKeyCompressed::alloc_from_infos(&lay);
-                m.glwe_automorphism_key_compressed_encrypt_sk(&mut c, gal, &sk_out, seed_xa, &enc, &mut xe, scratch.borrow());
+                let q = m.glwe_automorphism_key_compressed_encrypt_sk_tmp_bytes(&lay);
+                m.glwe_automorphism_key_compressed_encrypt_sk(&mut c, gal, &sk_out, seed_xa, &enc, &mut xe, scratch.get("glwe_automorphism_key_compressed_encrypt_sk", q));
                 c.write_to(&mut bytes).unwrap();
                 if via_serde {
                     use poulpy_hal::layouts::ReaderFrom;
@@ -335,7 +399,8 @@ pub fn build<B: FullBackend>(m: &Module<B>, p: &EncP, compressed: bool, via_serd
                     meta.push(part.p());
                 }
             } else {
-                m.glwe_automorphism_key_encrypt_sk(&mut ct, gal, &sk_out, &enc, &mut xe, &mut xa, scratch.borrow());
+                let q = m.glwe_automorphism_key_encrypt_sk_tmp_bytes(&lay);
+                m.glwe_automorphism_key_encrypt_sk(&mut ct, gal, &sk_out, &enc, &mut xe, &mut xa, scratch.get("glwe_automorphism_key_encrypt_sk", q));
             }
             for row in 0..p.dnum as usize {
                 for col in 0..p.rank_out as usize {
@@ -357,7 +422,8 @@ pub fn build<B: FullBackend>(m: &Module<B>, p: &EncP, compressed: bool, via_serd
             let pairs = ct.rank_in().0 as usize;
             if compressed {
                 let mut c = GLWETensorKeyCompressed::alloc_from_infos(&lay);
-                m.glwe_tensor_key_compressed_encrypt_sk(&mut c, &sk_out, seed_xa, &enc, &mut xe, scratch.borrow());
+                let q = m.glwe_tensor_key_compressed_encrypt_sk_tmp_bytes(&lay);
+                m.glwe_tensor_key_compressed_encrypt_sk(&mut c, &sk_out, seed_xa, &enc, &mut xe, scratch.get("glwe_tensor_key_compressed_encrypt_sk", q));
                 c.write_to(&mut bytes).unwrap();
                 if via_serde {
                     use poulpy_hal::layouts::ReaderFrom;
@@ -373,7 +439,8 @@ pub fn build<B: FullBackend>(m: &Module<B>, p: &EncP, compressed: bool, via_serd
                 }
                 m.decompress_tensor_key(&mut ct, &c);
             } else {
-                m.glwe_tensor_key_encrypt_sk(&mut ct, &sk_out, &enc, &mut xe, &mut xa, scratch.borrow());
+                let q = m.glwe_tensor_key_encrypt_sk_tmp_bytes(&lay);
+                m.glwe_tensor_key_encrypt_sk(&mut ct, &sk_out, &enc, &mut xe, &mut xa, scratch.get("glwe_tensor_key_encrypt_sk", q));
             }
             use poulpy_core::layouts::GGLWEToRef;
             let g = ct.to_ref();
@@ -392,7 +459,8 @@ pub fn build<B: FullBackend>(m: &Module<B>, p: &EncP, compressed: bool, via_serd
             let r = p.rank_out as usize;
             if compressed {
                 let mut c = GGLWEToGGSWKeyCompressed::alloc_from_infos(&lay);
-                poulpy_core::GGLWEToGGSWKeyCompressedEncryptSk::gglwe_to_ggsw_key_encrypt_sk(m, &mut c, &sk_out, seed_xa, &enc, &mut xe, scratch.borrow());
+                let q = poulpy_core::GGLWEToGGSWKeyCompressedEncryptSk::gglwe_to_ggsw_key_encrypt_sk_tmp_bytes(m, &lay);
+                poulpy_core::GGLWEToGGSWKeyCompressedEncryptSk::gglwe_to_ggsw_key_encrypt_sk(m, &mut c, &sk_out, seed_xa, &enc, &mut xe, scratch.get("gglwe_to_ggsw_key_compressed_encrypt_sk", q));
                 c.write_to(&mut bytes).unwrap();
                 if via_serde {
                     use poulpy_hal::layouts::ReaderFrom;
@@ -417,7 +485,8 @@ pub fn build<B: FullBackend>(m: &Module<B>, p: &EncP, compressed: bool, via_serd
                 ct2.write_to(&mut b2).unwrap();
                 assert!(b1 == b2, "decompress_gglwe_to_ggsw_key differs from element-wise decompress_gglwe");
             } else {
-                poulpy_core::GGLWEToGGSWKeyEncryptSk::gglwe_to_ggsw_key_encrypt_sk(m, &mut ct, &sk_out, &enc, &mut xe, &mut xa, scratch.borrow());
+                let q = poulpy_core::GGLWEToGGSWKeyEncryptSk::gglwe_to_ggsw_key_encrypt_sk_tmp_bytes(m, &lay);
+                poulpy_core::GGLWEToGGSWKeyEncryptSk::gglwe_to_ggsw_key_encrypt_sk(m, &mut ct, &sk_out, &enc, &mut xe, &mut xa, scratch.get("gglwe_to_ggsw_key_encrypt_sk", q));
             }
             for i in 0..r {
                 let g = ct.at(i);
@@ -445,7 +514,8 @@ pub fn build<B: FullBackend>(m: &Module<B>, p: &EncP, compressed: bool, via_serd
             // the key types keep their GGSWs private: they are read back through the public serialisation
             if compressed {
                 let mut key = BlindRotationKeyCompressed::<Vec<u8>, CGGI>::alloc(&lay);
-                m.blind_rotation_key_compressed_encrypt_sk(&mut key, &skp, &sk_lwe, seed_xa, &enc, &mut xe, scratch.borrow());
+                let q = <Module<B> as BlindRotationKeyCompressedEncryptSk<B, CGGI>>::blind_rotation_key_compressed_encrypt_sk_tmp_bytes(m, &lay);
+                m.blind_rotation_key_compressed_encrypt_sk(&mut key, &skp, &sk_lwe, seed_xa, &enc, &mut xe, scratch.get("blind_rotation_key_compressed_encrypt_sk", q));
                 key.write_to(&mut bytes).unwrap();
                 if via_serde {
                     let mut k2 = BlindRotationKeyCompressed::<Vec<u8>, CGGI>::alloc(&lay);
@@ -472,7 +542,8 @@ pub fn build<B: FullBackend>(m: &Module<B>, p: &EncP, compressed: bool, via_serd
                 }
             } else {
                 let mut key = BlindRotationKey::<Vec<u8>, CGGI>::alloc(&lay);
-                m.blind_rotation_key_encrypt_sk(&mut key, &skp, &sk_lwe, &enc, &mut xe, &mut xa, scratch.borrow());
+                let q = <Module<B> as BlindRotationKeyEncryptSk<CGGI, B>>::blind_rotation_key_encrypt_sk_tmp_bytes(m, &lay);
+                m.blind_rotation_key_encrypt_sk(&mut key, &skp, &sk_lwe, &enc, &mut xe, &mut xa, scratch.get("blind_rotation_key_encrypt_sk", q));
                 key.write_to(&mut bytes).unwrap();
                 let mut probe = vec![];
                 GGSW::alloc_from_infos(&lay).write_to(&mut probe).unwrap();
